@@ -792,7 +792,11 @@ def _conc_specs() -> dict:
     d = _S["golden"].get("d")
     qn = len(q[1]) if q else 0
     dn = len(d[1]) if d else 0
-    frame = 65554 if qn > 65554 else qn // 2
+    # end of the first pickle frame (PROTO 2 bytes, FRAME opcode + 8-byte length, payload): what a writer killed between the
+    # pickler's write() calls leaves on disk; 65554 for the database of this tree
+    frame = qn // 2
+    if q and q[1][2:3] == b"\x95" and 11 + int.from_bytes(q[1][3:11], "little") < qn:
+        frame = 11 + int.from_bytes(q[1][3:11], "little")
     return {
         "cold": {"nodir": True},
         "lock_only": {"locks": True},
